@@ -81,6 +81,15 @@ def check(run, cases=None):
                           dict(case=c, expected=obs))
         else:
             run.dev(abs(chi2 - exp) / (wmax * (S + 4) ** 2))
+        # linear in Omega, also at extreme scales (exact powers of two: the product must scale exactly up to rounding)
+        if n_case % 5 == 0:
+            for sc in (2.0 ** -40, 2.0 ** 40):
+                e.information = B.info(c['W']).astype(float) * sc
+                got = e.calc_chi2()
+                if abs(got - sc * exp) > tolc * sc:
+                    run.violation(dict(fam=c['fam'], k=c['k'], check='chi2-linear-in-omega'), 'chi2 with information scaled by %g is %r, expected %r | case %r' % (sc, float(got), sc * exp, c), dict(case=c, scale=sc))
+                    break
+            e.information = B.info(c['W'])
         if c['psd'] and chi2 < -tolc:
             run.violation(dict(fam=c['fam'], k=c['k'], check='chi2-nonneg'), 'chi2 %r < 0 with PSD information | case %r' % (chi2, c), dict(case=c))
         if not at_pi:
@@ -111,6 +120,14 @@ def _graph_sum(run, batch):
         v2.fixed = n % 3 == 0
         total += exp
         tol += tolc
+        if n % 3 == 0:
+            # a parallel edge: a second edge object naming the same two ids (a repeated measurement); both count
+            e2 = EC.build_edge(c)[0]
+            e2.vertex_ids = [v1.id, v2.id]
+            e2.vertices = None
+            edges.insert(0, e2)
+            total += exp
+            tol += tolc
     try:
         g = Graph(edges, verts)
         got = g.calc_chi2()
